@@ -441,6 +441,8 @@ class TransactionManager(Elaboratable):
         # step 4: convert transactions to methods
         joined_transactions = set[TBody]().union(*final_simultaneous)
 
+        # simultaneous transactions that ended up in no group never run; bodies nested in them must not run either
+        self.unscheduled = [tr._body for tr in self.transactions if tr._body in all_simultaneous - joined_transactions]
         self.transactions = list(filter(lambda tr: tr._body not in all_simultaneous, self.transactions))
 
         methods = dict[TBody, Method]()
@@ -491,6 +493,11 @@ class TransactionManager(Elaboratable):
             cgr, porder = TransactionManager._conflict_graph(method_map)
 
         ready_dependencies = self._ready_dependencies(method_map)
+        for body in self.unscheduled:
+            # not scheduled, so its run signal stays low: whatever is ready-dependent on it is never runnable
+            for relation in body.relations:
+                if relation.ready_dependent:
+                    ready_dependencies[relation.end].add(body)
 
         for transaction in method_map.transactions:
             for dep in ready_dependencies[transaction]:
